@@ -453,6 +453,182 @@ def replay_batch_plain(a):
 
 
 # --------------------------------------------------------------------------------------------------
+# `cfn-guard test` (plain reporter): the exit code folded over test files and test cases
+# --------------------------------------------------------------------------------------------------
+def test_generic_report(a):
+    c_ = mirsmt.consts_of(a.mir)
+    for k in ("SUCCESS_STATUS_CODE", "TEST_ERROR_STATUS_CODE", "TEST_FAILURE_STATUS_CODE"):
+        if k not in c_:
+            raise Untranslatable(f"const {k} not found")
+    OK, TERR, TFAIL = c_["SUCCESS_STATUS_CODE"], c_["TEST_ERROR_STATUS_CODE"], c_["TEST_FAILURE_STATUS_CODE"]
+    lits = {}
+
+    def m_get(ex, argv):
+        """by_result.get("FAIL"): the literal key is checked by the caller; other keys are arbitrary lookups"""
+        o = ex.fresh_enum("Option", 2, "got", {"Some": ex.opq()})
+        return o
+    ex = a.exec(r"generic::<impl at guard/src/commands/reporters/test/generic\.rs:\d+:\d+: \d+:\d+>::report",
+                {"iterate_over": lambda ex, av: ex.opq(), "next": mirexec.m_iter_next, "into_iter": mirexec.m_new_iter,
+                 "get_by_result": m_result_opq, "get": m_get, "is_some": lambda ex, av: ("bool", f"(= {av[0][2]} 1)") if av and av[0][0] == "enum" else ex.havoc("bool"),
+                 "write_fmt": mirexec.m_result_unit, "print_test_case_report": lambda ex, av: ex.opq()},
+                unroll=2, max_paths=60000)
+    a.fns.append("commands::reporters::test::generic::GenericReporter::report")
+    bad, ncase = [], 0
+    for p in ex.paths:
+        r = p.ret
+        if p.outcome != "return" or not r or r[0] != "enum" or r[1] != "Result":
+            bad.append(pc_term(p.pc))
+            continue
+        okv = r[3].get("Ok")
+        gbr = calls(p, "get_by_result")
+        gets = calls(p, "get")
+        ncase += len(gbr)
+        # errors: outer items that are Err(..) (a test file that cannot be read / parsed)
+        outer_src = None
+        for e in calls(p, "iterate_over"):
+            outer_src = e[3]
+        outer = iterations(ex, p, it_filter=lambda ev: outer_src is not None and ex.iter_src.get(ev[2][0][1], ev[2][0]) == outer_src)
+        errs = [f"(and (= {t} 1) (= {disc(ex, el)} 1))" for _k, el, t, _i in outer if el is not None]
+        fails = []
+        key_ok = True
+        for g in gets:
+            if not (len(g[2]) == 2 and g[2][1] == ("str", "FAIL") and any(same(g[2][0], x[3][3]["Ok"]) for x in gbr)):
+                key_ok = False
+            fails.append(f"(= {g[3][2]} 1)")
+        anyE = "(or false " + " ".join(errs) + ")"
+        anyF = "(or false " + " ".join(fails) + ")"
+        callee_err = "(or false " + " ".join(f"(= {e[3][2]} 1)" for e in gbr + calls(p, "write_fmt") if e[3][0] == "enum") + ")"
+        if okv is not None and okv[0] == "int":
+            code = okv[1]
+            good_ok = (f"(and (not {callee_err}) (= (= {code} {OK}) (and (not {anyE}) (not {anyF}))) (=> (and (not {anyE}) {anyF}) (= {code} {TFAIL})) "
+                       f"(=> (and {anyE} (not {anyF})) (= {code} {TERR})) (= {len(gets)} {len(gbr)}))")
+        else:
+            good_ok = "false"
+        good = f"(ite (= {r[2]} 0) {good_ok} {callee_err})"
+        bad.append(f"(and {pc_term(p.pc)} (not {good if key_ok else 'false'}))")
+    c = a.discharge("test/generic-report/exit-code", ex, bad,
+                f"`cfn-guard test` (plain output), <= 2 test files x <= 2 test cases ({ncase} case evaluations): exit code {OK} iff every "
+                f"test file could be read and no case has a mismatching expectation (a `FAIL` group in its result); {TFAIL} if all files "
+                f"were read and some case mismatches; {TERR} if a file could not be read and nothing mismatches; every case's result is "
+                "inspected under the key \"FAIL\"; an evaluation error ends the run with Err")
+    if c:
+        c["replay"] = replay_test_cmd(a)
+        c["reproduced"] = c["replay"].get("reproduced", False)
+        a.candidates.append(c)
+
+
+def test_get_by_result(a):
+    """one test case of `cfn-guard test`: fresh scope, expectations matched per rule"""
+    def m_gsr(ex, argv):
+        return ("tuple", [ex.fresh_enum("Option", 2, "matched", {"Some": ex.fresh_status("mst")}), ex.opq()])
+    ex = a.exec(r"generic::<impl at guard/src/commands/reporters/test/generic\.rs:\d+:\d+: \d+:\d+>::get_by_result",
+                {"try_from": m_result_opq, "root_scope": m_scope, "eval_rules_file": mirexec.m_result_status, RC_NEW: mirexec.m_identity,
+                 "get_by_rules": lambda ex, av: ex.opq(), "next": mirexec.m_iter_next, "into_iter": mirexec.m_new_iter,
+                 "get": mirexec.m_option, "get_status_result": m_gsr, "from": mirexec.m_identity, "write_fmt": mirexec.m_result_unit,
+                 "as_str": mirexec.m_identity, "or_insert_with": lambda ex, av: ex.opq(), "new": lambda ex, av: ex.opq()},
+                log=("entry", "insert"), unroll=2, max_paths=60000, init_env=None)
+    a.fns.append("commands::reporters::test::generic::GenericReporter::get_by_result")
+    me, spec = ex.arg_env["_1"], ex.arg_env["_2"]
+    GR = struct_fields(a.src, "commands/reporters/test/generic.rs", "GenericReporter")
+    rules = field(ex, me, GR.index("rules"), "RulesFile")
+    bad, nrule = [], 0
+    for p in ex.paths:
+        r = p.ret
+        if p.outcome != "return" or not r or r[0] != "enum" or r[1] != "Result":
+            bad.append(pc_term(p.pc))
+            continue
+        tf = [e for e in calls(p, "try_from") if "PathAwareValue" in e[5]]
+        evs = calls(p, "eval_rules_file")
+        probs = []
+        if evs:
+            doc = tf[0][3][3]["Ok"] if tf else None
+            probs += pair_wiring(ex, p, lambda i: rules, lambda i: doc, lambda i: None)
+            if len(evs) != 1:
+                probs.append("a test case is evaluated more than once")
+        gbr = calls(p, "get_by_rules")
+        src = gbr[0][3] if gbr else None
+        its = iterations(ex, p, it_filter=lambda ev: src is not None and ex.iter_src.get(ev[2][0][1], ev[2][0]) == src)
+        bounds = [i for _k, _e, _t, i in its] + [len(p.events)]
+        parts = []
+        for n, (k, el, tag, i0) in enumerate(its):
+            seg = [e for i, e in enumerate(p.events) if bounds[n] <= i < bounds[n + 1] and e[0] == "call"]
+            g = [e for e in seg if e[1] == "get"]
+            ent = [e for e in seg if e[1] == "entry"]
+            gsr = [e for e in seg if e[1] == "get_status_result"]
+            if not g:
+                continue
+            nrule += 1
+            has_exp = f"(= {g[0][3][2]} 1)"
+            if not ent:
+                # nothing recorded for this rule: no expectation was stated (or the run ended with an error)
+                parts.append(f"(or (not {has_exp}) (= {r[2]} 1))")
+                continue
+            label = ent[0][2][1] if len(ent[0][2]) > 1 else None
+            if not gsr or gsr[0][3][0] != "tuple" or label is None or label[0] != "str" or len(ent) != 1:
+                parts.append("false")
+                continue
+            matched = f"(= {gsr[0][3][1][0][2]} 1)"
+            parts.append(f"(and {has_exp} " + (matched if label[1] == "PASS" else f"(not {matched})" if label[1] == "FAIL" else "false") + ")")
+        callee_err = "(or false " + " ".join(f"(= {e[3][2]} 1)" for e in tf + evs + calls(p, "write_fmt") + [e for e in calls(p, "try_from") if "Status" in e[5]] if e[3][0] == "enum") + ")"
+        good = f"(and true {' '.join(parts)} (=> (= {r[2]} 1) {callee_err}))"
+        bad.append(f"(and {pc_term(p.pc)} (not {'false' if probs else good}))")
+    c = a.discharge("test/get_by_result/expectations", ex, bad,
+                    f"one test case, <= 2 rules ({nrule} rule visits): the input is evaluated once, in a fresh scope built from the rules "
+                    "file and this case's input; a rule without a stated expectation is recorded neither as met nor as failed; a rule "
+                    "whose expectation is met (per get_status_result) is recorded under PASS, otherwise under FAIL; Err only from a callee")
+    if c:
+        c["replay"] = replay_test_cmd(a)
+        c["reproduced"] = c["replay"].get("reproduced", False)
+        a.candidates.append(c)
+
+
+def replay_test_cmd(a):
+    """`cfn-guard test` on sequences of <= 3 test cases whose expectations match (M) or mismatch (X), in one or two
+    test files: exit 0 iff all match, 7 iff some mismatch; an unreadable test file gives a non-zero exit"""
+    import itertools, os, shutil, subprocess, tempfile
+    exe = a.cli()
+    if not exe:
+        return {"reproduced": False, "note": "native build failed"}
+    rules = "rule r { a == 1 }\nrule s when a == 2 { b exists }\n"
+
+    def case(i, kind):
+        # M: all expectations match; X: one mismatches; N: matches, and rule `s` (which is SKIP) has no expectation at all
+        exp = "FAIL" if kind == "X" else "PASS"
+        return f"- name: c{i}\n  input:\n    a: 1\n  expectations:\n    rules:\n      r: {exp}\n" + ("" if kind == "N" else "      s: SKIP\n")
+    d = tempfile.mkdtemp(prefix="cfnverif_replay_")
+    out = []
+    try:
+        open(os.path.join(d, "r.guard"), "w").write(rules)
+        env = dict(os.environ)
+        env["RUST_BACKTRACE"] = "0"
+        for n in (1, 2, 3):
+            for seq in itertools.product("MXN", repeat=n):
+                for split in (0,):                  # one test file (`--test-data` may be given once)
+                    files = []
+                    parts = [seq[:split], seq[split:]] if split else [seq]
+                    for fi, part in enumerate(parts):
+                        f = os.path.join(d, f"t{fi}.yaml")
+                        open(f, "w").write("---\n" + "".join(case(i, k) for i, k in enumerate(part)))
+                        files.append(f)
+                    cmd = [exe, "test", "-r", os.path.join(d, "r.guard")]
+                    for f in files:
+                        cmd += ["-t", f]
+                    p = subprocess.run(cmd, stdout=subprocess.PIPE, stderr=subprocess.PIPE, text=True, timeout=120, env=env)
+                    want = 7 if "X" in seq else 0
+                    if p.returncode != want:
+                        out.append({"cases": "".join(seq), "files": len(files), "expected_exit": want, "observed_exit": p.returncode,
+                                    "stderr": p.stderr[-150:]})
+        open(os.path.join(d, "bad.yaml"), "w").write("- name: [unterminated\n")
+        p = subprocess.run([exe, "test", "-r", os.path.join(d, "r.guard"), "-t", os.path.join(d, "bad.yaml")],
+                           stdout=subprocess.PIPE, stderr=subprocess.PIPE, text=True, timeout=120, env=env)
+        if p.returncode == 0:
+            out.append({"cases": "unreadable test file", "expected_exit": "non-zero", "observed_exit": 0})
+        return {"reproduced": bool(out), "mismatches": out[:5], "rules_file": rules}
+    finally:
+        shutil.rmtree(d, ignore_errors=True)
+
+
+# --------------------------------------------------------------------------------------------------
 # JUnit path: update_exit_code (pure), get_test_case (scope wiring, status -> test-case mark)
 # --------------------------------------------------------------------------------------------------
 def junit_exit_code(a):
@@ -1044,8 +1220,9 @@ def replay_fail_rule_listed(a):
 
 
 SITES = {
-    "C06": [structured_report, junit_exit_code, junit_test_case, validate_execute_step],
-    "C12": [structured_report, junit_test_case, data_input_wiring],
+    "C06": [structured_report, junit_exit_code, junit_test_case, validate_execute_step, test_generic_report],
+    "C12": [structured_report, junit_test_case, data_input_wiring, test_get_by_result],
+    "C16": [test_generic_report, test_get_by_result],
     "C09": [report_partition, report_rule_listing],
     "C15": [scope_resolution, param_rule_call],
     "C17": [merge_map, merge_unwrap],
